@@ -174,6 +174,24 @@ pub fn run(ctx: &mut crate::Ctx) {
         pair!("update.and_where_option", { let mut u = Query::update(); u.table(id(&a.t)).value(id(&a.a), a.v1.clone()).and_where_option(Some(a.e1.clone())); u }, { let mut u = Query::update(); u.table(id(&a.t)).value(id(&a.a), a.v1.clone()).and_where(a.e1.clone()); u });
         pair!("update.values", { let mut u = Query::update(); u.table(id(&a.t)).values([(id(&a.a), a.e1.clone()), (id(&a.b), a.e2.clone())]); u }, { let mut u = Query::update(); u.table(id(&a.t)).value(id(&a.a), a.e1.clone()).value(id(&a.b), a.e2.clone()); u });
         pair!("delete.and_where_option", { let mut d = Query::delete(); d.from_table(id(&a.t)).and_where_option(Some(a.e1.clone())); d }, { let mut d = Query::delete(); d.from_table(id(&a.t)).and_where(a.e1.clone()); d });
+        // ---- ON CONFLICT: every where-adding method of target and action against the general form, with the other side set too
+        {
+            let ins = |oc: OnConflict| { let mut i = Query::insert(); i.into_table(id(&a.t)).columns([id(&a.a), id(&a.b)]).values_panic([a.e1.clone(), a.e2.clone()]).on_conflict(oc); i };
+            let base = || { let mut oc = OnConflict::column(id(&a.a)); oc.value(id(&a.b), a.v1.clone()); oc };
+            pair!("on_conflict.target_and_where", ins({ let mut oc = base(); oc.target_and_where(a.e1.clone()).action_cond_where(Cond::all().add(a.e3.clone())); oc }), ins({ let mut oc = base(); oc.target_cond_where(Cond::all().add(a.e1.clone())).action_cond_where(Cond::all().add(a.e3.clone())); oc }));
+            pair!("on_conflict.target_and_where_option(Some)", ins({ let mut oc = base(); oc.target_and_where_option(Some(a.e1.clone())).action_cond_where(Cond::all().add(a.e3.clone())); oc }), ins({ let mut oc = base(); oc.target_cond_where(Cond::all().add(a.e1.clone())).action_cond_where(Cond::all().add(a.e3.clone())); oc }));
+            pair!("on_conflict.target_and_where_option(None)", ins({ let mut oc = base(); oc.target_and_where(a.e2.clone()).target_and_where_option(None); oc }), ins({ let mut oc = base(); oc.target_cond_where(Cond::all().add(a.e2.clone())); oc }));
+            pair!("on_conflict.action_and_where", ins({ let mut oc = base(); oc.target_cond_where(Cond::all().add(a.e3.clone())).action_and_where(a.e1.clone()); oc }), ins({ let mut oc = base(); oc.target_cond_where(Cond::all().add(a.e3.clone())).action_cond_where(Cond::all().add(a.e1.clone())); oc }));
+            pair!("on_conflict.action_and_where_option(Some)", ins({ let mut oc = base(); oc.target_cond_where(Cond::all().add(a.e3.clone())).action_and_where_option(Some(a.e1.clone())); oc }), ins({ let mut oc = base(); oc.target_cond_where(Cond::all().add(a.e3.clone())).action_cond_where(Cond::all().add(a.e1.clone())); oc }));
+            pair!("on_conflict.action_and_where_option(Some) alone", ins({ let mut oc = base(); oc.action_and_where_option(Some(a.e1.clone())); oc }), ins({ let mut oc = base(); oc.action_cond_where(Cond::all().add(a.e1.clone())); oc }));
+            pair!("on_conflict.action_and_where_option(None)", ins({ let mut oc = base(); oc.action_and_where(a.e2.clone()).action_and_where_option(None); oc }), ins({ let mut oc = base(); oc.action_cond_where(Cond::all().add(a.e2.clone())); oc }));
+            pair!("on_conflict.target_and_where twice", ins({ let mut oc = base(); oc.target_and_where(a.e1.clone()).target_and_where(a.e2.clone()); oc }), ins({ let mut oc = base(); oc.target_cond_where(Cond::all().add(a.e1.clone()).add(a.e2.clone())); oc }));
+            pair!("on_conflict.action_and_where twice", ins({ let mut oc = base(); oc.action_and_where(a.e1.clone()).action_and_where(a.e2.clone()); oc }), ins({ let mut oc = base(); oc.action_cond_where(Cond::all().add(a.e1.clone()).add(a.e2.clone())); oc }));
+            pair!("on_conflict.columns", ins({ let mut oc = OnConflict::columns([id(&a.a)]); oc.update_columns([id(&a.b)]); oc }), ins({ let mut oc = OnConflict::column(id(&a.a)); oc.update_column(id(&a.b)); oc }));
+            pair!("on_conflict.exprs", ins({ let mut oc = OnConflict::new(); oc.exprs([a.e1.clone(), a.e2.clone()]).do_nothing(); oc }), ins({ let mut oc = OnConflict::new(); oc.expr(a.e1.clone()).expr(a.e2.clone()).do_nothing(); oc }));
+            pair!("on_conflict.values", ins({ let mut oc = base(); oc.values([(id(&a.a), a.e1.clone()), (id(&a.c), a.e2.clone())]); oc }), ins({ let mut oc = base(); oc.value(id(&a.a), a.e1.clone()).value(id(&a.c), a.e2.clone()); oc }));
+            pair!("on_conflict.update_columns", ins({ let mut oc = OnConflict::column(id(&a.a)); oc.update_columns([id(&a.b), id(&a.c)]); oc }), ins({ let mut oc = OnConflict::column(id(&a.a)); oc.update_column(id(&a.b)).update_column(id(&a.c)); oc }));
+        }
         pair!("insert.values_panic", { let mut i = Query::insert(); i.into_table(id(&a.t)).columns([id(&a.a), id(&a.b)]).values_panic([a.e1.clone(), a.e2.clone()]); i }, { let mut i = Query::insert(); i.into_table(id(&a.t)).columns([id(&a.a), id(&a.b)]); i.values([a.e1.clone(), a.e2.clone()]).unwrap(); i });
         pair!("insert.returning_col", { let mut i = Query::insert(); i.into_table(id(&a.t)).columns([id(&a.a)]).values_panic([a.e1.clone()]).returning_col(id(&a.b)); i }, { let mut i = Query::insert(); i.into_table(id(&a.t)).columns([id(&a.a)]).values_panic([a.e1.clone()]).returning(Query::returning().column(id(&a.b))); i });
         pair!("insert.returning_all", { let mut i = Query::insert(); i.into_table(id(&a.t)).columns([id(&a.a)]).values_panic([a.e1.clone()]).returning_all(); i }, { let mut i = Query::insert(); i.into_table(id(&a.t)).columns([id(&a.a)]).values_panic([a.e1.clone()]).returning(Query::returning().all()); i });
